@@ -440,7 +440,7 @@ def refIndex (a b : Val) : Option Val :=
     | .int i => if i < 0 then none else es[i.toNat]?
     | .list ixs =>
       match natList ixs with
-      | some is => if is.isEmpty then none else (is.mapM fun i => es[i]?).bind (reseq isStr)
+      | some is => (is.mapM fun i => es[i]?).bind (reseq isStr)
       | none => none
     | _ => none
 
@@ -495,6 +495,33 @@ where
     | [] => []
     | y :: ys => flattenAll y ++ flattenList ys
 
+def isSeq : Val → Bool
+  | .list _ => true | .str _ => true | _ => false
+
+def seqLen : Val → Nat
+  | .list xs => xs.length | .str cs => cs.length | _ => 0
+
+/-- where the manual's wording on Shape is ambiguous, at any depth: empty members (atoms that are
+    also lists/strings) and rows of equal length that are themselves irregular -/
+def shapeAmbHere (xs : List Val) : Bool :=
+  let hasEmpty := xs.any (fun x => match x with | .list [] => true | .str [] => true | _ => false)
+  let rowsIrregular := xs.all (fun x => match x with | .list (_ :: _) => true | _ => false) &&
+    (xs.map seqLen).all (· == seqLen (xs.headD .undef)) &&
+    xs.any (fun x => match x with
+      | .list ys => ys.any (fun y => match y with | .list _ => true | _ => false) &&
+                    (refShape x).length == 1
+      | _ => false)
+  hasEmpty || rowsIrregular
+
+mutual
+def shapeAmb : Val → Bool
+  | .list xs => shapeAmbHere xs || shapeAmbL xs
+  | _ => false
+def shapeAmbL : List Val → Bool
+  | [] => false
+  | x :: xs => shapeAmb x || shapeAmbL xs
+end
+
 /-- a character is paired with a string somewhere: klongpy identifies 0ca with "a" under its own
     = / ~; the reference does not define that comparison -/
 def charStrClash : Val → Val → Bool
@@ -513,12 +540,6 @@ def aopOf : String → Option AOp
   | "+" => some .add | "-" => some .sub | "*" => some .mul | "&" => some .min | "|" => some .max
   | "<" => some .lt | ">" => some .gt | "=" => some .eq | "!" => some .rem | ":%" => some .idiv
   | _ => none
-
-def isSeq : Val → Bool
-  | .list _ => true | .str _ => true | _ => false
-
-def seqLen : Val → Nat
-  | .list xs => xs.length | .str cs => cs.length | _ => 0
 
 /-- reference for dyads: `none` where the manual defines nothing -/
 def refDyad (verb : String) (a b : Val) : Option Val :=
@@ -579,6 +600,7 @@ def refDyad (verb : String) (a b : Val) : Option Val :=
          let flatSrc := match b with
            | .list xs => xs.all (fun x => match x with | .list _ => false | .str _ => false | _ => true)
            | .str _ => false
+           | .chr _ => false
            | _ => true
          if ds.isEmpty || ds.any (· == 0) || flat.isEmpty || !flatSrc then none
          else some (reshapeFill (ds.length + 1) ds flat 0)
@@ -588,6 +610,7 @@ def refDyad (verb : String) (a b : Val) : Option Val :=
       let flatSrc := match b with
         | .list xs => xs.all (fun x => match x with | .list _ => false | .str _ => false | _ => true)
         | .str _ => false
+        | .chr _ => false
         | _ => true
       if n ≤ 0 || flat.isEmpty || !flatSrc then none else some (reshapeFill 2 [n.toNat] flat 0)
     | _, _, _ => none
@@ -631,23 +654,21 @@ def refMonad (verb : String) (a : Val) : Option Val :=
   | "!", .int n => if n < 0 then none else some (.list (refEnumerate n.toNat))
   | "&", .int n => if n < 0 then none else some (.list (List.replicate n.toNat (.int 0)))
   | "&", .list xs => (natList xs).map fun cs => .list (refExpand cs)
-  | "?", .list xs => some (.list (refRange vmatch xs))
+  | "?", .list xs =>
+    -- a character next to a string: klongpy identifies 0ca with "a"; left undefined
+    if xs.any (fun x => match x with | .chr _ => true | _ => false) &&
+       xs.any (fun x => match x with | .str _ => true | _ => false) then none
+    else some (.list (refRange vmatch xs))
   | "?", .str cs => (joinChars (refRange vmatch (strChars cs))).map .str
-  | "=", .list xs => some (.list ((refGroup vmatch xs).map fun g => .list (g.map fun (i : Nat) => Val.int (i : Int))))
+  | "=", .list xs =>
+    if xs.any (fun x => match x with | .chr _ => true | _ => false) &&
+       xs.any (fun x => match x with | .str _ => true | _ => false) then none
+    else some (.list ((refGroup vmatch xs).map fun g => .list (g.map fun (i : Nat) => Val.int (i : Int))))
   | "=", .str cs => some (.list ((refGroup vmatch (strChars cs)).map fun g => .list (g.map fun (i : Nat) => Val.int (i : Int))))
   | "@", a => some (b2i a.isAtom)
   | "^", .list [] => some (.int 0)         -- [] is an atom
   | "^", .list xs =>
-    -- left undefined where the manual's wording is ambiguous: empty members (atoms that are
-    -- also lists/strings) and rows of equal length that are themselves irregular
-    let hasEmpty := xs.any (fun x => match x with | .list [] => true | .str [] => true | _ => false)
-    let rowsIrregular := xs.all (fun x => match x with | .list (_ :: _) => true | _ => false) &&
-      (xs.map seqLen).all (· == seqLen (xs.headD .undef)) &&
-      xs.any (fun x => match x with
-        | .list ys => ys.any (fun y => match y with | .list _ => true | _ => false) &&
-                      (refShape x).length == 1
-        | _ => false)
-    if hasEmpty || rowsIrregular then none
+    if shapeAmb (.list xs) then none
     else some (.list ((refShape (.list xs)).map fun (n : Nat) => Val.int (n : Int)))
   | "^", .str (c :: cs) => some (.list [.int ((c :: cs).length : Nat)])
   | "^", .str [] => none
@@ -665,8 +686,11 @@ def refMonad (verb : String) (a : Val) : Option Val :=
   | "~", .str [] => some (.int 1)
   | "~", .real b => some (b2i (Float.ofBits b == 0))
   | "~", .sym _ => some (.int 0)
+  | "~", .str (_ :: _) => some (.int 0)
+  | "~", .dict _ => some (.int 0)
   | "~", .chr _ => some (.int 0)
   | "#", .int n => some (.int n.natAbs)
+  | "#", .real b => some (ofF (Float.abs (Float.ofBits b)))
   | "#", .chr c => some (.int c)
   | "_", .int n => some (.int n)
   | ",", .chr c => some (.str [c])       -- a list of one character is a string
